@@ -45,6 +45,10 @@ def run_property(prop: str, tier: str, seed: int, ctx: Ctx = None, write: bool =
         res = report.Results(prop)
         res.analysed.update(ctx.idx.stats())
         res.analysed["python"] = sys.version.split()[0]
+        if ctx.idx.renamed_anchors:
+            # private functions / classes of the pinned tree that were found under another name (sa/anchors.json) and read under the pinned one
+            res.analysed["anchors_resolved_by_shape"] = dict(sorted(ctx.idx.renamed_anchors.items()))
+            print("NOTE anchors resolved by shape: " + ", ".join(f"{k} <- {v}" for k, v in sorted(ctx.idx.renamed_anchors.items())))
         mod.check(ctx, res)
         extra = {}
         if tier == "thorough" and os.environ.get("VERIF_NO_SELFTEST") != "1":
